@@ -73,7 +73,7 @@ func main() {
 				"changed.register", "changed.authorize", "changed.conflict.same-key", "changed.conflict.resigned", "changed.conflict.fresh-key", "changed.conflict.other-device-key",
 				"changed.report.normal", "changed.report.equivocating", "changed.report.over-capacity", "changed.report.negative", "changed.rotation",
 				"unchanged.duplicate", "state.banned_slots", "state.archived_weeks", "surface_checks", "scripted.completed",
-				"wide.completed", "deep.completed", "restart.before_expiration_of_device_with_reports", "restart.at_expiration_of_device_with_reports",
+				"wide.completed", "deep.completed", "tornlog.scenarios", "pw.outcome_observed", "pw.restart_in_fresh_process", "restart.before_expiration_of_device_with_reports", "restart.at_expiration_of_device_with_reports",
 				"restart.after_expiration_of_device_with_reports", "restart.device_without_expiration_has_reports",
 				"long.completed", "long.accepted_reports", "long.recent_list_truncations", "long.equivocation_at_truncation", "long.fresh_at_truncation"} {
 				c.Require(k, 1)
@@ -124,6 +124,15 @@ func plan(tier string, seed int64) []run.Batch {
 	for i := 0; i < ns; i++ {
 		bs = append(bs, run.Batch{Kind: "wide", Seed: seed*100000 + 8000 + int64(i), N: 1, TimeoutS: 600})
 		bs = append(bs, run.Batch{Kind: "deep", Seed: seed*100000 + 8500 + int64(i), N: 1, TimeoutS: 600, Params: map[string]string{"rounds": fmt.Sprint(6 + i)}})
+	}
+	// file faults: a report append cut short while the server is down; a partial write of a week record
+	nf := 1
+	if tier == "thorough" {
+		nf = 4
+	}
+	for i := 0; i < nf; i++ {
+		bs = append(bs, run.Batch{Kind: "tornlog", Seed: seed*100000 + 8700 + int64(i), N: 1, TimeoutS: 300})
+		bs = append(bs, run.Batch{Kind: "partialwrite", Seed: seed*100000 + 8800 + int64(i), N: 1, TimeoutS: 600})
 	}
 	// long histories: more accepted reports than the server's recent-report list holds
 	nl := 2
@@ -185,6 +194,9 @@ type hist struct {
 	all        map[uint32]*drv.Dev // every device the harness ever created, by id
 	logged     map[uint32]int      // state-changing reports sent per device id
 	next       uint32
+	whileDown  func()            // run once between Close and the next start (file fault)
+	mayRefuse  bool              // the start in progress may refuse (damaged file): accepted, counted
+	keepDir    bool              // the server directory outlives this process
 	forceExp   uint32            // expiration of the next authorization (scripted)
 	lastID     uint32            // id of the last accepted fresh authorization
 	cur        *server.VerifSnap // state after the last restart pair
@@ -594,6 +606,13 @@ func (h *hist) startSrv(what string) bool {
 		h.dead, h.fatal = true, true
 		return false
 	}
+	if err != nil && h.mayRefuse {
+		// fail-stop on a damaged file is an accepted outcome; the oracle is conditional on a server that comes up
+		h.r.Count("tornlog.start_refused", 1)
+		h.r.Note("%s: start on the damaged directory refused: %v", h.tag, err)
+		h.dead, h.fatal = true, true
+		return false
+	}
 	if err != nil {
 		h.viol("restart-failed:"+run.Normalize(err.Error()), map[string]interface{}{"when": what}, "starting again on the same directory failed (%s): %v", what, err)
 		h.dead, h.fatal = true, true // the failed instance leaves its 120 s test-mode timer behind
@@ -698,7 +717,14 @@ func (h *hist) restartPair(class string, k int) {
 		return
 	}
 	drv.SetClock(newClock)
-	if !h.startSrv("first restart") {
+	if h.whileDown != nil {
+		h.whileDown() // a fault on the files while the server is down; the next start may refuse
+		h.whileDown = nil
+		h.mayRefuse = true
+	}
+	ok := h.startSrv("first restart")
+	h.mayRefuse = false
+	if !ok {
 		return
 	}
 	S1 := h.S.VerifSnapshot(true)
@@ -956,7 +982,11 @@ func newHist(b run.Batch, r *ev.Result, idx int) *hist {
 	drv.SetClock(0)
 	drv.GateRotation(true)
 	drv.GateImpact(true)
-	e, err := drv.NewServerDir(filepath.Join(b.Dir, fmt.Sprintf("srv%d", idx)), rng, h.seeded)
+	dir := filepath.Join(b.Dir, fmt.Sprintf("srv%d", idx))
+	if b.P("srv") != "" {
+		dir, h.keepDir, h.seeded = b.P("srv"), true, true
+	}
+	e, err := drv.NewServerDir(dir, rng, h.seeded)
 	if err != nil {
 		r.Inconc("cannot prepare server directory: " + err.Error())
 		return nil
@@ -980,7 +1010,9 @@ func (h *hist) stop() {
 	if h.S != nil && !h.fatal {
 		h.closeSrv("end of history", h.cur)
 	}
-	os.RemoveAll(h.Dir)
+	if !h.keepDir {
+		os.RemoveAll(h.Dir)
+	}
 }
 
 func (h *hist) pickCatchup() int {
@@ -1442,6 +1474,26 @@ func (h *hist) runSharedKey(variant string) {
 }
 
 func child(b run.Batch, r *ev.Result) {
+	switch b.Kind {
+	case "partialwrite":
+		childPartialWrite(b, r)
+		return
+	case "pw-a":
+		childPWA(b, r)
+		return
+	case "pw-b":
+		childPWB(b, r)
+		return
+	case "tornlog":
+		h := newHist(b, r, 0)
+		if h == nil {
+			return
+		}
+		h.runTornLog()
+		r.Count("histories.tornlog", 1)
+		h.stop()
+		return
+	}
 	if b.Kind == "wide" || b.Kind == "deep" {
 		h := newHist(b, r, 0)
 		if h == nil {
